@@ -13,8 +13,8 @@ RUN_MOD = "C01.RunTok"        # extends C01.Run (shared with C02/C03) by session
 MODEL_TARGETS = ["C01/Run.vo", "C01/RunTok.vo"]
 PROOF_TARGETS = ["C01/Basics.vo", "C01/Lemmas.vo", "C01/LemmasFact.vo", "C01/LemmasTable.vo", "C01/FactList.vo", "C01/FactExp.vo",
                  "C01/FactProps.vo", "C01/FactAll.vo", "C01/FactSmart1.vo", "C01/FactSmart2.vo", "C01/FactSmart3.vo", "C01/FactSmart4.vo",
-                 "C01/FactFuel.vo", "C01/LemmasTop.vo", "C01/LemmasTok.vo"]
-PROPS = ["C01/Props.v", "C01/PropsTok.v"]
+                 "C01/FactFuel.vo", "C01/LemmasTop.vo", "C01/LemmasTok.vo", "C01/LemmasArgs.vo"]
+PROPS = ["C01/Props.v", "C01/PropsTok.v", "C01/PropsArgs.v"]
 ALLOWED_AXIOMS = []
 IMPL_TIMEOUT = 20.0
 COQ_SHARD = 40
@@ -279,6 +279,59 @@ def _gen_deep_prefix(rng):
             "start": top, "smart": rng.random() < 0.5}
 
 
+def _gen_sentence(rng, g, max_depth=7, max_len=10, budget=3000):
+    """llp_common.gen_sentence with a bound on the number of expansions: for grammars with several nullable symbols per
+    alternative the unbounded recursion (depth up to 28, nothing appended) takes minutes; when the budget is used up the
+    shortest alternatives are taken and, at last, the expansion stops (the sentence is then a broken one: fine, inputs of
+    every kind are wanted)"""
+    prods = dict((nt, alts) for nt, alts in g["prods"])
+    out = []
+    left = [budget]
+
+    def expand(sym, depth):
+        if len(out) > max_len or depth > 4 * max_depth or left[0] < -budget:
+            return
+        if sym not in prods:
+            out.append(sym)
+            return
+        left[0] -= 1
+        alts = prods[sym]
+        if depth > max_depth or left[0] < 0:
+            alts = sorted(alts, key=len)[:1]
+        for x in rng.choice(alts):
+            expand(x, depth + 1)
+    expand(g["start"], 0)
+    return out[:max_len]
+
+
+def _gen_inputs(rng, g, n):
+    """llp_common.gen_inputs over the bounded sentence generator"""
+    terms = g["terms"]
+    res = []
+    for _ in range(n):
+        r = rng.random()
+        if r < 0.55:
+            x = _gen_sentence(rng, g)
+        elif r < 0.8:
+            x = _gen_sentence(rng, g)
+            if x and rng.random() < 0.5:
+                x[rng.randrange(len(x))] = rng.choice(terms)
+            elif x and rng.random() < 0.5:
+                del x[rng.randrange(len(x))]
+            else:
+                x.insert(rng.randint(0, len(x)), rng.choice(terms))
+        else:
+            x = [rng.choice(terms) for _ in range(rng.randint(0, 6))]
+        res.append([[t, t + (str(rng.randint(0, 99)) if rng.random() < 0.4 else "")] for t in x])
+    seen, out = set(), []
+    for x in res:
+        k = tuple(map(tuple, x))
+        if k not in seen:
+            seen.add(k)
+            out.append(x)
+    return out
+
+
 def gen_cases(rng, tier):
     n = 4000 if tier == "thorough" else 220
     cases = []
@@ -289,7 +342,7 @@ def gen_cases(rng, tier):
             g = L.gen_grammar(rng, allow_leftrec=0.08)
             if rng.random() < 0.5:
                 g = _mutate_for_c01(rng, g)
-        c = {"g": g, "inputs": L.gen_inputs(rng, g, 12)}
+        c = {"g": g, "inputs": _gen_inputs(rng, g, 12)}
         if tier == "thorough" or i % 10 == 0:
             c["diag"] = True      # also compare prods_map / _suffix_symbols themselves
         cases.append(c)
@@ -312,7 +365,7 @@ def search_cases(rng, tier):
             g = L.gen_grammar(rng, allow_leftrec=0.05)
             if rng.random() < 0.6:
                 g = _mutate_for_c01(rng, g)
-        cases.append({"g": g, "inputs": L.gen_inputs(rng, g, 12)})
+        cases.append({"g": g, "inputs": _gen_inputs(rng, g, 12)})
     for i in range(n // 3):
         cases.append(_gen_tok_session(rng))
     for i in range(n // 6):
@@ -855,7 +908,7 @@ def _gen_tok_session(rng):
         texts.append({"text": text, "toks": toks, "full": full})
         return len(texts) - 1
 
-    names_list = [[n for n, _ in inp] for inp in L.gen_inputs(rng, g, 7)]
+    names_list = [[n for n, _ in inp] for inp in _gen_inputs(rng, g, 7)]
     for names in names_list:
         items = _pick_items(rng, info, names)
         if items is None:
@@ -871,7 +924,7 @@ def _gen_tok_session(rng):
     for d in info["decoys"]:
         if rng.random() < 0.25:
             continue
-        items = _pick_items(rng, info, L.gen_sentence(rng, g))
+        items = _pick_items(rng, info, _gen_sentence(rng, g))
         if items is None:
             continue
         if d[0] in skipset:
@@ -890,7 +943,7 @@ def _gen_tok_session(rng):
         s = rng.choice(nts)
         g2 = dict(g)
         g2["start"] = s
-        items = _pick_items(rng, info, L.gen_sentence(rng, g2))
+        items = _pick_items(rng, info, _gen_sentence(rng, g2))
         if items is not None:
             extra.append([add_text(items), s])
     calls = _gen_calls(rng, g, len(texts), extra)
@@ -1046,14 +1099,14 @@ def _gen_plain_session(rng, i):
         if rng.random() < 0.5:
             g = _mutate_for_c01(rng, g)
     texts, extra = [], []
-    for inp in L.gen_inputs(rng, g, 8):
+    for inp in _gen_inputs(rng, g, 8):
         texts.append({"text": " ".join(v for _, v in inp), "toks": [list(x) for x in inp], "full": None})
     nts = [nt for nt, _ in g["prods"]]
     for _ in range(rng.randint(0, 3)):
         s = rng.choice(nts)
         g2 = dict(g)
         g2["start"] = s
-        inp = [[t, t + (str(rng.randint(0, 99)) if rng.random() < 0.4 else "")] for t in L.gen_sentence(rng, g2)]
+        inp = [[t, t + (str(rng.randint(0, 99)) if rng.random() < 0.4 else "")] for t in _gen_sentence(rng, g2)]
         texts.append({"text": " ".join(v for _, v in inp), "toks": inp, "full": None})
         extra.append([len(texts) - 1, s])
     calls = _gen_calls(rng, g, len(texts), extra)
@@ -1734,7 +1787,7 @@ LEVEL_TEXT = ("Full (model level; all user grammars, all token lists, all iterat
               "text_is_cut_at_newlines_only / text_without_newline_is_one_line: a text that is lines joined by newlines is tokenised "
               "from exactly these lines (rstripped), whatever other characters they contain (FF, VT, lone CR, NEL, U+2028 ... stay "
               "inside the token that matches them); Example odd_characters_stay_inside_tokens.  "
-              "later_dict_changes_do_not_reach_the_parser / calls_after_the_change_answer_as_before: the configuration with which the "
+              "PropsArgs.v: later_dict_changes_do_not_reach_the_parser / calls_after_the_change_answer_as_before: the configuration with which the "
               "model tokenises after the caller changed its synonyms / keywords dicts in place is the constructor's -- proved from the "
               "constants syn_aliased = kw_aliased = false that are regenerated from the source on every run (the proof breaks when "
               "the tokenizer keeps the caller's dicts again).  That the other argument objects (skip_tokens container, productions, "
